@@ -33,7 +33,7 @@ def answer (st : DState) (line : String) : DState × String :=
     match (varintOp impl ws <|> keepaliveOp impl ws <|> wsOp impl ws <|> codecOp impl ws) with
     | some r => (st, fmt r)
     | none =>
-      match topicsOp st.topics impl ws with
+      match (topicsOp st.topics impl ws <|> topicsConcOp st.topics impl ws) with
       | some (t', r) => ({ st with topics := t' }, fmt r)
       | none =>
         match ledgerOp st.ledger impl ws with
